@@ -318,7 +318,9 @@ EXTRA = {'C01': 'Each configuration additionally runs with failing appenders (no
         "build with log4rs's background_rotation feature (BackgroundRotation.tla: step-wise rotation threads, "
         'restarts inside one process, liveness), and long behaviours (400 / 1000 records with faults, crashes, '
         'restarts, obstacles, encoder failures, overlaps) are sampled with TLC -simulate. An eighth materialisation '
-        'archives 40 000-byte units of text that does not compress through gzip.',
+        'archives 40 000-byte units of text that does not compress through gzip. An instance with a one-slot gzip '
+        'window whose newest archive name takes no byte (Obstruct kind full): the rotation reports the failure and '
+        'no record is lost.',
  'C06': 'The replay materialises every behaviour five times: 10-byte units with DeleteRoller, 400-byte units with a '
         'two-chunk encoder (straddling the 1 KiB BufWriter), 16-byte units with gzip archives and an appender built '
         'from a configuration value, 12-byte units with the index in a directory component of the archive pattern, '
